@@ -26,6 +26,7 @@ def declarations(c, tier, with_encoded_as=True, nrand=None, for_codec=True):
     r = random.Random(vlib.seed())
     for _ in range(nrand if nrand is not None else (1500 if thorough else 250)):
         decls.append(D.rand_decl(r, len(decls), for_codec))
+    decls += D.newtype_decls(len(decls))
     for i, d in enumerate(decls): d["id"] = i
     return decls
 
